@@ -1,9 +1,9 @@
 (* C19 -- init always produces a configuration that bumpver itself can use.
-   all_layouts (Proofs/ConfigFacts.v): every combination of absent / empty / unrelated text / text with a
+   all_layouts (Proofs/ConfigFactsC19.v): every combination of absent / empty / unrelated text / text with a
    bumpver section for the five config-capable files, and absent / present for README.md, README.rst,
    setup.py: 4^5 * 2^3 = 8192 project directories.  layout_iv is the initial version 2026.1001-alpha. *)
 From Coq Require Import List Bool NArith.
-From BV Require Import Lib.PyStr Model.V2 Model.V1 Model.Config Gen.Tables Proofs.ConfigFacts.
+From BV Require Import Lib.PyStr Model.V2 Model.V1 Model.Config Gen.Tables Proofs.ConfigFactsC19.
 Import ListNotations.
 Local Open Scope N_scope.
 
